@@ -88,6 +88,11 @@ def build_pool(seed):
         pool.append({"op": "from_bank_code", "cc": cc, "code": code})
         pool.append({"op": "candidates", "cc": cc, "code": code})
         pool.append({"op": "from_bank_code", "cc": cc, "code": code[:-1]})
+    for cc in ccs:
+        creates.append({"kind": "bic", "text": "ABCD" + cc + "2A"})
+        pool.append({"op": "bic", "text": "ABCD" + cc + "2AXXX"})
+        if rng.random() < 0.35:
+            creates.append({"kind": "iban", "text": g.iban(cc, rng)})
     # countries without published positions, explicitly (their table entries are the ones lacking keys)
     for cc in [c for c in ccs if not o.positions(c)]:
         t = g.iban(cc, rng)
@@ -106,6 +111,17 @@ def build_pool(seed):
                        {"op": "random", "cc": cc, "seed": 3, "cls": "BBAN", "use_registry": False},
                        {"op": "obj", "create": c, "what": "snapshot"}, {"op": "obj", "create": c, "what": "bic"},
                        {"op": "obj", "create": c, "what": "bank"}, {"op": "iban", "text": t, "validate_bban": True}])
+    # per country: calls of every class that mention the country (BIC with that country code, IBAN, BBAN, their properties)
+    for cc in ccs:
+        t = g.iban(cc, rng)
+        ci, cb, cn = {"kind": "iban", "text": t}, {"kind": "bic", "text": "ABCD" + cc + "2A"}, {"kind": "bban", "cc": cc, "text": t[4:]}
+        grp = [{"op": "bic", "text": "ABCD" + cc + "2A"}, {"op": "bic", "text": "ABCD" + cc + "2AXXX", "strict": True},
+               {"op": "iban", "text": t}, {"op": "iban", "text": t, "validate_bban": True}]
+        for c in (ci, cb, cn):
+            for what in ("snapshot", "country", "country_code", "spec", "is_valid", "bic", "bank", "in_sepa_zone", "exists", "type"):
+                if what in public_properties(c["kind"]):
+                    grp.append({"op": "obj", "create": c, "what": what})
+        groups.append(grp)
     # the same BBAN text under several countries (each judged by its own rules, in any order), incl. argument forms
     from ._shared import sibling_ibans
     from ..oracles import nat as onat
@@ -178,6 +194,17 @@ WHATS_FOR = {
             "bank_names", "country_code"],
     "bban": ["snapshot", "bic", "bank", "copy", "deepcopy", "pickle", "national", "bank_code", "account_code"],
 }
+
+
+def public_properties(kind):
+    """Every public property of the class (by introspection: a property added later is read as well) plus the operations."""
+    from ..lib import BBAN, BIC, IBAN
+    cls = {"iban": IBAN, "bic": BIC, "bban": BBAN}[kind]
+    props = sorted(n for n in dir(cls) if not n.startswith("_") and isinstance(getattr(cls, n, None), property))
+    extra = {"iban": ["validate", "snapshot", "copy", "deepcopy", "pickle", "national"],
+             "bic": ["validate", "snapshot", "copy", "deepcopy", "pickle"],
+             "bban": ["snapshot", "copy", "deepcopy", "pickle", "national"]}[kind]
+    return props + extra
 
 
 # ------------------------------------------------------------------------------------------------ the machine
@@ -265,7 +292,7 @@ def make_machine(rec: Rec, zyg, pool, creates, groups, check_registry_every_step
         @rule(i=objs, k=st.integers(0, 50), flag=st.booleans())
         def obj_op(self, i, k, flag):
             c, obj, _ = self.stored[i]
-            ws = WHATS_FOR[c["kind"]]
+            ws = public_properties(c["kind"])
             what = ws[k % len(ws)]
             d = {"op": "obj", "create": c, "what": what}
             if what == "validate" and flag:
@@ -383,6 +410,42 @@ def shard(arg):
                 case["input"]["reproduces_from_pristine_process"] = why
                 case["_size"] = len(json.dumps(small))
         rec.classes["fresh-process-references"] += zyg.requests
+    finally:
+        zyg.close()
+    return rec
+
+
+def shard_groups(arg):
+    """Every group (calls about one algorithm object / bank key / country / BBAN text) is run completely, in order, twice in a
+    row in a fork of the pristine zygote; every outcome must equal the fresh-process outcome of that call."""
+    i, seed, tier = arg
+    from ..engines.zygote import Zygote
+    rec = Rec()
+    _, _, groups = build_pool(seed)
+    zyg = Zygote()
+    try:
+        for gi in range(i, len(groups), 16):
+            grp = groups[gi]
+            hist = []
+            seen = set()
+            for d in grp + grp:
+                if d["op"] == "obj":
+                    k_ = json.dumps(d["create"], sort_keys=True)
+                    if k_ not in seen:
+                        seen.add(k_)
+                        hist.append({"op": "create", "create": d["create"]})
+                hist.append(d)
+            why = history_fails(zyg, hist)
+            rec.evals += len(hist)
+            rec.classes["group-run-twice"] += 1
+            rec.nt.add(hash(("group", gi, seed)))
+            if why:
+                small, why2 = minimise(zyg, hist, 10 if tier == "quick" else 60)
+                last = small[-1]
+                what = last["op"] + (":" + last.get("what", "") if last["op"] == "obj" else "")
+                rec.fail(f"history_dependent|{what}|group", "outcome_equals_fresh_process",
+                         {"history": small, "reproduces_from_pristine_process": why2}, "as in a fresh process", why)
+        rec.sample("group-run-twice", {"groups": len(groups), "rule": "each group in order, twice, in a pristine fork"})
     finally:
         zyg.close()
     return rec
@@ -509,4 +572,5 @@ def run(ctx):
                        "call pool is finite per seed (memoised references); histories are unbounded combinations of it"]
     ctx.pmap(shard, [(i, ctx.seed, ctx.tier) for i in range(16)])
     ctx.pmap(shard_long, [(i, ctx.seed, ctx.tier) for i in range(8 if ctx.quick else 16)])
-    ctx.require_classes("sequence", "sequence-with-failing-call-followed-by-other-calls", "fresh-process-references", "burst", "long-history-calls", "long-history-kind-0", "long-history-kind-2")
+    ctx.pmap(shard_groups, [(i, ctx.seed, ctx.tier) for i in range(16)])
+    ctx.require_classes("sequence", "sequence-with-failing-call-followed-by-other-calls", "fresh-process-references", "burst", "group-run-twice", "long-history-calls", "long-history-kind-0", "long-history-kind-2")
